@@ -25,8 +25,9 @@ from common import (Stream, budget, enc_op, canon_op_json, to_gq, from_gq, dyadi
 
 OPEN_STATEMENTS = [
     'sz_indices_spec is proved in terms of the numbers of up / down particles read from the index (sz_indices_spec_fixed, '
-    'sz_indices_spec_free, arbitrary injective disjoint index maps); the identities numUp + numDown = popcount and '
-    '(numUp - numDown)/2 = eigenvalue of the Model sz operator (sz_diag) are not proved; both oracles cover them',
+    'sz_indices_spec_free, arbitrary injective disjoint index maps) and every listed index is an eigenstate of the Model sz '
+    'operator with eigenvalue sz (sz_indices_eigen, default maps, fixed particle number); the converse through the operator '
+    '(every eigenstate is listed) and numUp + numDown = popcount are not stated separately; both oracles cover them',
     'restrict_is_projection: the index part is proved at the matrix level for the particle number '
     '(number_indices_matrix_sector: the listed matrix indices are exactly the eigenvalue-k basis states, through the bit '
     'reversal); that numpy.ix_ extracts those rows / columns in list order is the indexing contract (restrict stream)',
@@ -36,7 +37,8 @@ OPEN_STATEMENTS = [
     'number-preserving stream',
     'expectation_cbs_list_sound: expectation value = <s|F|s> for normal-ordered operators with at most two-body terms: only '
     'the agreement of the vector and list conventions (expectation_vector_is_list) is proved',
-    'sz_diag, s_squared = S-S+ + Sz(Sz+1): covered by the special-operators stream (Spec formula equality on all basis states)',
+    's_squared = S-S+ + Sz(Sz+1), sx, sy, s_plus, s_minus: covered by the special-operators stream (Spec formula equality on all '
+    'basis states); sz and the number operator are proved diagonal (sz_operator_diag, number_operator_diag)',
     'jw_get_ground_state_at_particle_number: float contract over eigsh / eigh only; observation outside the property: it raises '
     'ArpackError when the operator vanishes on a sector of dimension >= 3 (all-zero matrix given to eigsh); those inputs are skipped',
 ]
